@@ -1347,6 +1347,11 @@ func (r *runner) cmpq(kv map[string]string) (string, string) {
 			switch q.cmd {
 			case "q.address":
 				class = "address-cache-not-reverted"
+				// the address row is in the database for both managers, only the running one knows the account it
+				// belongs to (an orphan row left by a failed putChainedAddress of a cache-only account)
+				if strings.Contains(a1, "accountnotfound") != strings.Contains(a2, "accountnotfound") {
+					class = "account-cache-not-reverted"
+				}
 			case "q.props":
 				f1, f2 := strings.Fields(a1), strings.Fields(a2)
 				switch {
@@ -1367,6 +1372,11 @@ func (r *runner) cmpq(kv map[string]string) (string, string) {
 			case "q.synced":
 				class = "synced-to-not-reverted"
 			}
+			// account the query is about: explicit, or the account of a chained address key "c:<acct>:<branch>:<index>"
+			qacct := q.kv["acct"]
+			if f := strings.Split(q.kv["key"], ":"); qacct == "" && len(f) == 4 && f[0] == "c" {
+				qacct = f[1]
+			}
 			item := ""
 			switch class {
 			case "address-cache-not-reverted", "used-flag-differs":
@@ -1376,14 +1386,15 @@ func (r *runner) cmpq(kv map[string]string) (string, string) {
 			case "next-index-differs", "last-address-differs":
 				item = "idx:" + q.kv["sc"] + "/" + q.kv["acct"]
 			case "account-cache-not-reverted":
-				item = "acct:" + q.kv["sc"] + "/" + q.kv["acct"]
+				item = "acct:" + q.kv["sc"] + "/" + qacct
 			case "synced-to-not-reverted":
 				item = "synced"
 			}
 			// an account that only exists in the cache (created in a bracket that did not commit) explains name /
-			// index differences of that account number too
-			if _, ok := r.stale[item]; !ok && q.kv["acct"] != "" {
-				if alt := "acct:" + q.kv["sc"] + "/" + q.kv["acct"]; len(r.stale[alt]) > 0 {
+			// index differences of that account number too, and differences on the chained addresses of that account
+			// (Address / Used resolve an orphan address row through the stale acctInfo entry)
+			if _, ok := r.stale[item]; !ok && qacct != "" {
+				if alt := "acct:" + q.kv["sc"] + "/" + qacct; len(r.stale[alt]) > 0 {
 					item = alt
 				}
 			}
@@ -1448,7 +1459,14 @@ func (r *runner) nextcmp(sc, acct int, internal bool) (string, string) {
 	}
 	viol := ""
 	if run != fresh {
-		pre := r.blameFor(fmt.Sprintf("idx:%d/%d", sc, acct))
+		item := fmt.Sprintf("idx:%d/%d", sc, acct)
+		// an account that only exists in the cache: the running manager gets as far as putChainedAddress ("database"),
+		// a restarted one does not know the account at all - whoever else touched the index is not to blame
+		if alt := fmt.Sprintf("acct:%d/%d", sc, acct); len(r.stale[alt]) > 0 &&
+			strings.Contains(run, "accountnotfound") != strings.Contains(fresh, "accountnotfound") {
+			item = alt
+		}
+		pre := r.blameFor(item)
 		viol = fmt.Sprintf("C08 key=%s.next-address-differs-from-restart: running manager issued %q, a restarted one would issue %q", pre, run, fresh)
 	}
 	return fmt.Sprintf("run=%s fresh=%s", run, fresh), viol
